@@ -30,7 +30,16 @@ func (c07) Race() bool             { return true }
 func (c07) CrashIsViolation() bool { return true }
 func (c07) CaseTimeout(string) int { return 240 }
 func (c07) NumCases(tier string) int {
-	return firstKindCases(tier) + nestedCases(tier)
+	return firstKindCases(tier) + nestedCases(tier) + multiFetchCases(tier)
+}
+
+// multiFetchCases: cases of the first kind run on a gateway with EnableMultiFetch (even) or EnableMultiFetch +
+// EnableScheduleFetches (odd), appended after the nested cases.
+func multiFetchCases(tier string) int {
+	if tier == fw.Thorough {
+		return 1200
+	}
+	return 60
 }
 
 // firstKindCases: the cases of the first kind (shared federation layouts, whole-request faults). The cases of
@@ -42,13 +51,13 @@ func firstKindCases(tier string) int {
 	return 240
 }
 func (c07) Rule() string {
-	return "case = one (federation layout, valid operation, variables) as in C01 whose fault-free run sends >=2 subgraph requests. Fault space enumerated per case: EVERY single request of the fault-free run x the 9 fault kinds (transport error; 500 empty; 503 non-JSON; 200 empty; 200 non-JSON; 200 errors without data; 200 data:null + errors; one entity fewer; one entity more), and every PAIR of requests (one seeded kind per pair) when the run has <=4 requests. A fault addresses a request by (subgraph, operation text), so it is independent of arrival order. Oracle: the response returns (watchdog), is one valid JSON document, reports >=1 error when a faulted request was sent; every request sent under faults equals a fault-free request in (subgraph, operation) with representations a subset; data under faults is a null-refinement of the fault-free data (no fabricated or changed value, same keys and list lengths); every position that became null has, at or below it, a field position that no successful request of the faulted run delivered (so independent data is never lost); every position that stays non-null was delivered by a successful request of the faulted run. Provenance is OBSERVED (each semantic subgraph records the (type, object id, field, arguments) keys it resolves) and positional: the universe of this property draws entity ids from a pool of 2^40, so no entity occurs at two response positions. All total-loss kinds on the same request give identical data. Non-trivial = >=1 fault run in which a request that would otherwise follow the faulted one was not sent or some data survived; distinct by hash of (layout, operation, fault plan). SECOND CASE KIND (appended after the first: quick 240.., thorough 6000..; nested.go): PRNG-parameterised layouts of 2-4 subgraphs in which an entity A has a field computed from a NESTED @requires (\"b { x }\" or \"b { c { y } }\"; b / c entities resolved by their own entity fetches or value objects, single or lists, nested entities shared between parents or not; the required leaf owned by another subgraph than the computed field), lists of 1-4 A and a single A, engine option ValidateRequiredExternalFields on (3/5) or off, own semantic subgraphs over a tiny data model (every value a tagged string that is a pure function of (type, object id, field)). Fault space enumerated per case: every request x the 9 whole-request kinds, plus PARTIAL failures addressed by position (independent of arrival order): every delivered non-key field position answers null + an error with its exact path, every entity of every _entities answer is null + an error with path [_entities, i]; plus 4 seeded pairs of partial faults and 2 partial+whole pairs. Oracle: request rule as above (no fabricated request, representations a subset of the fault-free ones for that subgraph and operation), independent requests still sent byte-identical, >=1 error when any fault hit, and data EXACTLY equal to the reference response (spec executor over the supergraph) in which a field position is an error iff no successful request of the faulted run delivered it, and the computed field is an error iff one of the positions its @requires input is read from was not delivered (null propagation per schema nullability)."
+	return "case = one (federation layout, valid operation, variables) as in C01 whose fault-free run sends >=2 subgraph requests. Fault space enumerated per case: EVERY single request of the fault-free run x the 9 fault kinds (transport error; 500 empty; 503 non-JSON; 200 empty; 200 non-JSON; 200 errors without data; 200 data:null + errors; one entity fewer; one entity more), and every PAIR of requests (one seeded kind per pair) when the run has <=4 requests. A fault addresses a request by (subgraph, operation text), so it is independent of arrival order. Oracle: the response returns (watchdog), is one valid JSON document, reports >=1 error when a faulted request was sent; every request sent under faults equals a fault-free request in (subgraph, operation) with representations a subset; data under faults is a null-refinement of the fault-free data (no fabricated or changed value, same keys and list lengths); every position that became null has, at or below it, a field position that no successful request of the faulted run delivered (so independent data is never lost); every position that stays non-null was delivered by a successful request of the faulted run. Provenance is OBSERVED (each semantic subgraph records the (type, object id, field, arguments) keys it resolves) and positional: the universe of this property draws entity ids from a pool of 2^40, so no entity occurs at two response positions. All total-loss kinds on the same request give identical data. Non-trivial = >=1 fault run in which a request that would otherwise follow the faulted one was not sent or some data survived; distinct by hash of (layout, operation, fault plan). SECOND CASE KIND (appended after the first: quick 240.., thorough 6000..; nested.go): PRNG-parameterised layouts of 2-4 subgraphs in which an entity A has a field computed from a NESTED @requires (\"b { x }\" or \"b { c { y } }\"; b / c entities resolved by their own entity fetches or value objects, single or lists, nested entities shared between parents or not; the required leaf owned by another subgraph than the computed field), lists of 1-4 A and a single A, engine option ValidateRequiredExternalFields on (3/5) or off, own semantic subgraphs over a tiny data model (every value a tagged string that is a pure function of (type, object id, field)). Fault space enumerated per case: every request x the 9 whole-request kinds, plus PARTIAL failures addressed by position (independent of arrival order): every delivered non-key field position answers null + an error with its exact path, every entity of every _entities answer is null + an error with path [_entities, i]; plus 4 seeded pairs of partial faults and 2 partial+whole pairs. Oracle: request rule as above (no fabricated request, representations a subset of the fault-free ones for that subgraph and operation), independent requests still sent byte-identical, >=1 error when any fault hit, and data EXACTLY equal to the reference response (spec executor over the supergraph) in which a field position is an error iff no successful request of the faulted run delivered it, and the computed field is an error iff one of the positions its @requires input is read from was not delivered (null propagation per schema nullability). POST-FAULT PHASE of every fourth case of the second kind (cache.go): a gateway of its own over the same layout plus a second list root returning a prefix of the list, every subgraph answer storable (Cache-Control: public, max-age=60); per fault (every entity request with >=2 representations x {first entity left out, last entity left out, one entity more, 200 empty, errors without data, 500 empty} and first entity null + error) a fresh in-memory response cache is attached through resolve.Context.SetResponseCache, request 1 = the list operation under the fault, request 2 = the prefix operation WITHOUT faults on the same gateway and cache; oracle: response 2 equals the reference response (data, no errors) whatever the fault of request 1 was (violation post-fault-request-differs, facts response_cache=on, fault_kinds); not judged when the fault-free pair already differs (the cache's own transparency is C16). THIRD CASE KIND (appended after the second: quick 360.., thorough 7500..): the first kind on a gateway with EnableMultiFetch (even) or EnableMultiFetch+EnableScheduleFetches (odd); the entity-count kinds are not applied to merged (aliased) entity requests, whose answers the transport cannot resize; every violation carries the facts gateway_options, multi_fetch=true and faulted_request_is_merged_multi_fetch."
 }
 func (c07) Assumptions() []string {
 	return []string{"a faulted request delivers nothing (all nine kinds are total-loss kinds in this tier)", "the universe is static, so the fault-free run is the reference for what would have been sent", "second case kind: every field on the @requires path is nullable (a failing non-null field makes a subgraph null the enclosing entity, which is the separate per-entity fault); hop fields carry no alias (an aliased copy is fetched by a request of its own, the same position would be delivered twice); partial failures always carry an error with the exact path (a null without error is a legitimate value, an error without path cannot be attributed); within the dependents of a partially failed request, dropping MORE entities than the failed one is not judged (the statement allows at most a subset)"}
 }
 func (c07) RequiredCounters(string) []string {
-	return []string{"fault_runs", "faulted_requests_sent", "responses_compared", "dependent_requests_skipped", "positions_nulled_by_taint", "request_rule_checked", "nested_partial_fault_runs", "nested_dependent_request_sent_with_subset_of_entities", "nested_validating_runs_with_required_input_failure_the_option_tracks"}
+	return []string{"fault_runs", "faulted_requests_sent", "responses_compared", "dependent_requests_skipped", "positions_nulled_by_taint", "request_rule_checked", "nested_partial_fault_runs", "nested_dependent_request_sent_with_subset_of_entities", "nested_validating_runs_with_required_input_failure_the_option_tracks", "nested_cache_post_fault_runs", "nested_cache_post_fault_followups_served_from_cache", "multifetch_cases_with_merged_entity_request"}
 }
 
 func varsJSON(vals map[string]*gen.Val) []byte {
@@ -66,9 +75,21 @@ type reqID struct{ sub, query string }
 func repKey(rep map[string]any) string { return ref.Canon(rep) }
 
 func (p c07) Run(c *fw.Ctx, idx int) fw.Result {
+	if k := idx - firstKindCases(c.Tier) - nestedCases(c.Tier); k >= 0 {
+		if k%2 == 1 {
+			return p.runFirstKind(c, idx, fed.GatewayOptions{MultiFetch: true, ScheduleFetch: true}, "multifetch+schedule")
+		}
+		return p.runFirstKind(c, idx, fed.GatewayOptions{MultiFetch: true}, "multifetch")
+	}
 	if idx >= firstKindCases(c.Tier) {
 		return p.runNested(c, idx)
 	}
+	return p.runFirstKind(c, idx, fed.GatewayOptions{}, "")
+}
+
+// runFirstKind: gwOptions "" = the default gateway (all cases below firstKindCases); otherwise the name of the
+// option set, which becomes the fact gateway_options of every violation.
+func (p c07) runFirstKind(c *fw.Ctx, idx int, gwOpts fed.GatewayOptions, gwOptions string) fw.Result {
 	res := fw.Result{}
 	r := c.Rng(idx, "c07")
 	prof := fed.RandomProfile(r)
@@ -84,7 +105,7 @@ func (p c07) Run(c *fw.Ctx, idx int) fw.Result {
 		ents[e] = true
 	}
 	u := &ref.Universe{Seed: r.Uint64(), Schema: superGql, NullRate: 1, Entities: ents, PoolSize: 1 << 40, MaxList: 2, AliasIDs: true}
-	gw, err := fed.NewGateway(l, superGql, u, fed.GatewayOptions{})
+	gw, err := fed.NewGateway(l, superGql, u, gwOpts)
 	if err != nil {
 		res.Broken("gateway construction: "+err.Error(), map[string]any{"supergraph": l.SuperSDL})
 		return res
@@ -143,6 +164,19 @@ func (p c07) Run(c *fw.Ctx, idx int) fw.Result {
 		return d
 	}
 	fw.SetContext(detail(nil))
+	if gwOptions != "" {
+		res.Count("multifetch_cases", 1)
+		merged := 0
+		for _, rq := range run0.Requests {
+			if isMergedEntityRequest(rq) {
+				merged++
+			}
+		}
+		if merged > 0 {
+			res.Count("multifetch_cases_with_merged_entity_request", 1)
+			res.Count("multifetch_merged_entity_requests", int64(merged))
+		}
+	}
 	// fault-free request set
 	type r0info struct {
 		id    reqID
@@ -229,6 +263,15 @@ func (p c07) Run(c *fw.Ctx, idx int) fw.Result {
 	// the entity-count kinds only make sense for entity requests
 	kindsFor := func(id reqID) []string {
 		if strings.Contains(id.query, "_entities") {
+			if gwOptions != "" {
+				// a merged multi fetch answers under aliases (f0, f1, ...): the transport's entity-count kinds
+				// only resize a top-level _entities array and would leave such an answer as it is
+				for _, i := range byID[id] {
+					if isMergedEntityRequest(run0.Requests[i]) {
+						return fed.FaultKinds[:7]
+					}
+				}
+			}
 			return fed.FaultKinds
 		}
 		return fed.FaultKinds[:7]
@@ -282,6 +325,20 @@ func (p c07) Run(c *fw.Ctx, idx int) fw.Result {
 			}
 		}
 		match := map[string]string{"fault_kinds": strings.Join(kinds, "+"), "faults": fmt.Sprint(len(pl)), "operation_kind": string(gop.Operation), "faulted_request_has_single_representation": fmt.Sprint(singleRep), "entity_count_fault_on_single_entity_request": fmt.Sprint(countOnSingle)}
+		if gwOptions != "" {
+			// facts of the multi-fetch cases: the option set, and whether a faulted request is a MERGED entity
+			// request (several entity fetches under aliases f1, f2, ... in one operation)
+			match["gateway_options"], match["multi_fetch"] = gwOptions, "true"
+			merged := false
+			for id := range pl {
+				for _, i := range byID[id] {
+					if isMergedEntityRequest(run0.Requests[i]) {
+						merged = true
+					}
+				}
+			}
+			match["faulted_request_is_merged_multi_fetch"] = fmt.Sprint(merged)
+		}
 		got := execWatch(gw, text, vars, func(arrival int, sub, query string) *fed.Fault {
 			if k, ok := pl[reqID{sub, query}]; ok {
 				return &fed.Fault{Kind: k}
@@ -375,7 +432,11 @@ func (p c07) Run(c *fw.Ctx, idx int) fw.Result {
 				}
 				res.Count("independent_requests_checked", 1)
 				if !sent[run0.Requests[i].Subgraph+"\x00"+run0.Requests[i].RawBody] {
-					res.Violate("independent-request-not-sent", "a request that does not depend on any failed request was not sent under faults (subgraph "+ri.id.sub+")", match, fdetail(map[string]any{"request": ri.id.query, "request_body": truncate(run0.Requests[i].RawBody, 600)}))
+					m := match
+					if gwOptions != "" {
+						m = withFact(match, "unsent_request_is_merged_multi_fetch", fmt.Sprint(isMergedEntityRequest(run0.Requests[i])))
+					}
+					res.Violate("independent-request-not-sent", "a request that does not depend on any failed request was not sent under faults (subgraph "+ri.id.sub+")", m, fdetail(map[string]any{"request": ri.id.query, "request_body": truncate(run0.Requests[i].RawBody, 600)}))
 					break
 				}
 			}
@@ -425,6 +486,12 @@ func (p c07) Run(c *fw.Ctx, idx int) fw.Result {
 	res.Key = fw.HashKey("c07", idx)
 	res.Nontrivial = len(keys) > 0
 	return res
+}
+
+// isMergedEntityRequest: an entity request whose (fault-free) answer has no top-level _entities array, i.e. a
+// multi fetch answering under aliases.
+func isMergedEntityRequest(rq *fed.Request) bool {
+	return strings.Contains(rq.Query, "_entities") && !strings.Contains(rq.Response, `"_entities":[`)
 }
 
 type watched struct {
